@@ -565,7 +565,8 @@ def step (ds : DState) (line : String) : DState × String :=
   | ["stallcheck", _k, mode, victim, atS, badIdx, plan, obs, evs] =>
     (ds, match decPlan plan, decObs obs, victim.toNat?, atS.toNat? with
       | some p, some o, some v, some a =>
-        let m : Spec.Fan.StallMode := if mode == "block" then .block else if mode == "fail" then .fail else .bad
+        let m : Spec.Fan.StallMode := if mode == "block" then .block else if mode == "fail" then .fail
+          else if mode == "pause" then .pause else .bad
         let closeSeen := (evs.splitOn ";").map (fun e => (e.splitOn ",").any (fun x => x.startsWith "C("))
         -- the item whose write failed: the `a`-th item addressed to the victim (fail), or the unencodable item (bad)
         let failedItem := if mode == "bad" then (badIdx.toNat?.getD 0) else
